@@ -1,0 +1,11 @@
+//go:build verif
+
+package cli
+
+import "github.com/aperturerobotics/bifrost/crypto"
+
+// VerifLoadPrivKeys exports loadPrivKeys for the verification harness.
+func (a *EnvelopeArgs) VerifLoadPrivKeys() ([]crypto.PrivKey, error) { return a.loadPrivKeys() }
+
+// VerifLoadPubKeys exports loadPubKeys for the verification harness.
+func (a *EnvelopeArgs) VerifLoadPubKeys() ([]crypto.PubKey, error) { return a.loadPubKeys() }
